@@ -12,7 +12,7 @@ META = {
     'text': 'Decides on every abstract path: the client closes the transport\'s write side only in a state where both the request queue and the cancellation queue have returned '
             'Ready(None) (closed and drained — tokio delivers queued items first); the dispatch completes with Ok only if the read side ended or (the write side was closed and the in-flight '
             'table is empty); the server channel\'s stream ends only if, in that iteration, the transport read returned Ready(None) and the deadline source is exhausted; the request stream '
-            'ends only after the inbound side ended, the last flush completed and (nothing is in flight or the response queue is closed); and no removal from the server\'s in-flight table leaves its deadline timer armed, so the deadline source the channel waits for is exhausted as soon as nothing is in flight. NOT decided: promptness.',
+            'ends only after the inbound side ended, the last flush completed and (nothing is in flight or the response queue is closed); and no removal from the server\'s in-flight table leaves its deadline timer armed, so the deadline source the channel waits for is exhausted as soon as nothing is in flight. The client dispatch goes idle only with its two queues and the transport read registered (C10.drain, C10.read), so queued work and the peer\'s close are noticed without other traffic. NOT decided: promptness as a time bound.',
     'note': 'Trusted: tokio mpsc returns Ready(None) only when closed and drained; Fuse. Unknown callees are forked over all result shapes.',
 }
 
